@@ -281,11 +281,11 @@ class FakeOS:
         if pid <= 0:
             w.effects.append(("kill", pid, (sig,), None))
             return
+        if sig < 0 or sig > 64:
+            raise oserr(errno.EINVAL)        # (checked before the pid is looked up)
         p, is_tid = w._task(pid)
         if p is None:
             raise oserr(errno.ESRCH)
-        if sig < 0 or sig > 64:
-            raise oserr(errno.EINVAL)
         if "kill" in p.denied:
             raise oserr(errno.EPERM)
         w.effects.append(("kill", pid, (sig,), p.uid))        # (signal 0 = existence probe: logged, no effect)
